@@ -18,6 +18,16 @@ enum Which {
     C17,
 }
 
+impl Which {
+    fn id(&self) -> &'static str {
+        match self {
+            Which::C01 => "C01",
+            Which::C02 => "C02",
+            Which::C17 => "C17",
+        }
+    }
+}
+
 fn replay_pos(p: &Pos, origin: &str, extra: Vec<(&str, J)>) -> J {
     let mut v = vec![("kind", J::s("position")), ("fen", J::s(p.to_fen())), ("origin", J::s(origin))];
     v.extend(extra);
@@ -72,6 +82,71 @@ fn c01_position(p: &Pos, legal: &[Mv], b: &Board, mg: &MoveGenerator, st: &mut S
                     format!("is_in_check says {} but the rules say {} on {} ({})", chk, p.in_check(), p.to_fen(), origin),
                     replay_pos(p, origin, vec![("engine_in_check", J::Bool(chk))]),
                 );
+            }
+        }
+    }
+}
+
+
+/// Call-history independence, in the order a search uses the generator: for the successors S1..Sk of
+/// one position (siblings: they share most of the board; promotion alternatives even share the whole
+/// occupancy), ask is_in_check(Si) and then generate_moves (or the tactical list) of the NEXT sibling
+/// on the same long-lived generator. Every answer is compared with the reference rules, so anything
+/// remembered from the previous call shows.
+fn sibling_pass(which: Which, p: &Pos, legal: &[Mv], mg: &MoveGenerator, st: &mut Stats, origin: &str) {
+    if legal.len() < 2 {
+        return;
+    }
+    let succ: Vec<Pos> = legal.iter().map(|m| p.make(m)).collect();
+    let boards: Vec<Board> = succ.iter().map(|q| Board::new(&q.to_fen())).collect();
+    st.bump("sibling_passes");
+    if legal.iter().filter(|m| m.promo != 0).count() >= 2 {
+        st.bump("sibling_passes_with_promotion_alternatives");
+    }
+    for i in 0..succ.len() {
+        let j = (i + 1) % succ.len();
+        let (qi, qj) = (&succ[i], &succ[j]);
+        let lj = qj.legal_moves();
+        crate::report::note_case(&format!("is_in_check({}) then generate_moves({})", qi.to_fen(), qj.to_fen()));
+        let r = engine_call(|| {
+            let chk = mg.is_in_check(&boards[i]);
+            let ms = if matches!(which, Which::C17) && !qj.in_check() { mg.generate_quiescence_moves(&boards[j]) } else { mg.generate_moves(&boards[j]) };
+            (chk, ms)
+        });
+        st.bump("sibling_call_pairs");
+        let case = |extra: Vec<(&str, J)>| {
+            let mut v = vec![("kind", J::s("sibling")), ("fen", J::s(p.to_fen())), ("origin", J::s(origin)), ("checked_first", J::s(qi.to_fen())), ("generated_next", J::s(qj.to_fen()))];
+            v.extend(extra);
+            J::obj(v)
+        };
+        match r {
+            Err(msg) => {
+                st.violation(format!("{}:panic-sibling:{}", which.id(), qj.to_fen()), format!("is_in_check({}) then move generation on {} panicked: {}", qi.to_fen(), qj.to_fen(), msg), case(vec![]));
+                return;
+            }
+            Ok((chk, ms)) => {
+                if matches!(which, Which::C01) && chk != qi.in_check() {
+                    st.violation(format!("C01:incheck-sibling:{}", qi.to_fen()), format!("is_in_check says {} but the rules say {} on {} (asked right after generating moves of a sibling position)", chk, qi.in_check(), qi.to_fen()), case(vec![]));
+                    return;
+                }
+                let want = if matches!(which, Which::C17) && !qj.in_check() { gen::describe_moves(&tactical(qj, &lj)) } else { gen::describe_moves(&lj) };
+                let got = move_strings(&ms);
+                if got != want {
+                    let (dup, extra, missing) = diff_sets(&got, &want);
+                    st.violation(
+                        format!("{}:moveset-sibling:{}", which.id(), qj.to_fen()),
+                        format!(
+                            "after is_in_check({}) on the same generator, the move list of the sibling position {} differs from the rules: duplicated {:?}, engine-only {:?}, missing {:?}",
+                            qi.to_fen(),
+                            qj.to_fen(),
+                            dup,
+                            extra,
+                            missing
+                        ),
+                        case(vec![("engine_only", J::arr_s(extra)), ("missing", J::arr_s(missing))]),
+                    );
+                    return;
+                }
             }
         }
     }
@@ -322,6 +397,14 @@ fn visit(which: Which, p: &Pos, b: &Board, mg: &MoveGenerator, st: &mut Stats, o
         Which::C02 => c02_position(p, &legal, b, mg, st, origin),
         Which::C17 => c17_position(p, &legal, b, mg, st, origin),
     }
+    // every 16th position (and every position with promotion alternatives, which share their whole
+    // occupancy): the sibling pass on the same long-lived generator
+    if !matches!(which, Which::C02) {
+        let promo_alternatives = legal.iter().filter(|m| m.promo != 0).count() >= 2;
+        if origin == "replay-sibling" || (promo_alternatives && st.evals % 4 == 0) || st.evals % 16 == 0 {
+            sibling_pass(which, p, &legal, mg, st, origin);
+        }
+    }
 }
 
 /// A game played on ONE engine board mutated in place; after every ply the board is compared with
@@ -436,6 +519,10 @@ fn replay(ctx: &Ctx, which: Which, case: &J, mg: &MoveGenerator, st: &mut Stats)
         "qlog" => {
             let earlier: Vec<(Pos, u8)> = case.get("earlier").and_then(|a| a.as_arr()).map(|a| a.iter().filter_map(|e| Pos::from_fen(&e.str_of("fen")).ok().map(|q| (q, e.int_of("depth") as u8))).collect()).unwrap_or_default();
             c17_search_log_after(&earlier, &p, case.int_of("depth") as u8, st, "replay")
+        }
+        "sibling" => {
+            let b = eng::board_from_pos(&p);
+            visit(which, &p, &b, mg, st, "replay-sibling");
         }
         _ => {
             let b = eng::board_from_pos(&p);
@@ -564,9 +651,9 @@ fn spec(which: Which, replay: bool) -> Spec<'static> {
     match which {
         Which::C01 => Spec {
             level: "exploration",
-            rule: "cases are positions (corpus, random games from the start and from corpus positions played on one in-place engine board, synthetic valid positions, en-passant / castling / promotion / promotion-race studies); a case is distinct by (placement, side, rights, ep) and non-trivial when legality filtering or a special move matters in it: check, double check, refused pinned move, legal or refused ep, castling legal or refused, promotion, mate or stalemate",
+            rule: "cases are positions (corpus, random games from the start and from corpus positions played on one in-place engine board, synthetic valid positions, en-passant / castling / promotion / promotion-race studies); a case is distinct by (placement, side, rights, ep) and non-trivial when legality filtering or a special move matters in it: check, double check, refused pinned move, legal or refused ep, castling legal or refused, promotion, mate or stalemate. Sibling pass (every 16th position, and positions with promotion alternatives): on the same long-lived generator is_in_check(Si) is followed by the move list of the next sibling Sj for all successors of the position, each answer compared with the rules — the call order of a search, in which anything remembered from the previous call shows",
             assumptions,
-            required: if replay { vec![] } else { vec!["ep_legal", "ep_refused_illegal", "castle_kingside_legal", "castle_queenside_legal", "castle_refused_attacked", "castle_queenside_with_b_file_attacked", "promotion", "promotion_capture", "double_check", "checkmate", "stalemate", "pinned_piece_move_refused"] },
+            required: if replay { vec![] } else { vec!["ep_legal", "ep_refused_illegal", "castle_kingside_legal", "castle_queenside_legal", "castle_refused_attacked", "castle_queenside_with_b_file_attacked", "promotion", "promotion_capture", "double_check", "checkmate", "stalemate", "pinned_piece_move_refused", "sibling_call_pairs", "sibling_passes_with_promotion_alternatives"] },
             exhaustive: false,
             extra: vec![],
         },
@@ -582,7 +669,7 @@ fn spec(which: Which, replay: bool) -> Spec<'static> {
             level: "exploration",
             rule: "cases are (a) positions not in check on which generate_quiescence_moves is compared with {legal moves that capture, promote or give check} and (b) every quiescence node logged by real depth 1-2 searches (qnodes_logged) — on fresh engines and on engines that have just searched the position two plies earlier in the same game, so that the nodes now past the horizon have table entries — compared with that set or, when in check, with all legal moves; a second event log holds every (position, move) the quiescence search actually recursed into, each of which must belong to the expected set of its position; distinct by position identity, non-trivial when the expected set is non-empty / the position is not in check and has legal moves",
             assumptions,
-            required: if replay { vec![] } else { vec!["q_ep_capture", "q_promotion", "q_quiet_check", "q_discovered_check", "qnodes_logged", "qnodes_in_check", "qnodes_not_in_check", "searches_logged_on_an_engine_that_searched_the_game_before", "quiescence_recursions_logged"] },
+            required: if replay { vec![] } else { vec!["q_ep_capture", "q_promotion", "q_quiet_check", "q_discovered_check", "qnodes_logged", "qnodes_in_check", "qnodes_not_in_check", "searches_logged_on_an_engine_that_searched_the_game_before", "quiescence_recursions_logged", "sibling_call_pairs"] },
             exhaustive: false,
             extra: vec![],
         },
